@@ -228,8 +228,23 @@ def check_generators(ctx):
         if isinstance(l.target, ast.Tuple) and len(l.target.elts) == 2:
             pv = norm(l.target.elts[1])
             ok_p = isinstance(val, ast.Call) and isinstance(val.func, ast.Call) and len(val.func.args) == 1 and isinstance(val.func.args[0], ast.Starred) and norm(val.func.args[0].value) == pv and norm(val.func.func) == ps[2]
+            if not ok_p and isinstance(val, ast.Call) and isinstance(val.func, ast.Name):
+                # the gate is first bound to a local inside the loop body: `g = factory(*row)` when there are parameters, `g = factory` otherwise
+                def _uncast(e):
+                    return e.args[1] if isinstance(e, ast.Call) and dotted(e.func) in ("cast", "typing.cast") and len(e.args) == 2 else e
+
+                gdefs = [_uncast(x.value) for x in ast.walk(l) if isinstance(x, ast.Assign) and len(x.targets) == 1 and norm(x.targets[0]) == val.func.id]
+                built = [g for g in gdefs if isinstance(g, ast.Call) and len(g.args) == 1 and isinstance(g.args[0], ast.Starred) and norm(g.args[0].value) == pv and norm(_uncast(g.func)) == ps[2]]
+                plain = [g for g in gdefs if norm(g) == ps[2]]
+                ok_p = len(built) == 1 and len(built) + len(plain) == len(gdefs)
             ctx.check(ok_p, R3, fi.key + ":row-used-once", "each parameter row builds exactly the gate of its own iteration", f"{short(val)} does not build the gate from this iteration's parameter row", where)
             ok_zip = isinstance(it, ast.Call) and dotted(it.func) == "zip" and len(it.args) == 2 and norm(it.args[1]) == ps[3]
+            if not ok_zip and isinstance(it, ast.Call) and dotted(it.func) == "zip" and len(it.args) == 2 and isinstance(it.args[1], ast.Name):
+                # rows = parameters if <there are parameters> else repeat(())  -- the rows themselves, or endless empty rows for a plain gate
+                rd = d.single_def(it.args[1].id)
+                if isinstance(rd, ast.IfExp):
+                    arms_ = {norm(rd.body), norm(rd.orelse)}
+                    ok_zip = ps[3] in arms_ and bool(arms_ & {"repeat(())", "itertools.repeat(())"})
             ctx.check(ok_zip, R3, fi.key + ":rows-zipped", "qubits zipped with the parameter rows", f"{short(it)} does not pair the qubits with the parameter rows", where)
     rets = returned_exprs(fi.node)
     ctx.check(len(rets) == 1 and norm(rets[0]) == circ, R3, fi.key + ":returns-accumulator", "returns the extended circuit", "does not return the extended circuit", fi)
@@ -302,4 +317,4 @@ def run(ctx):
     ctx.floor("C08-D6", 6)
     ctx.floor("C08-D1", 4)
     ctx.floor("C08-D2", 5)
-    ctx.floor("C08-D3", 14)
+    ctx.floor("C08-D3", 12)  # one merged loop over (qubit, row) pairs yields two obligations fewer than the two separate loops
